@@ -171,43 +171,54 @@ static void c08_phase(int n, int hier, double pad, bool exempt, bool withSep, in
 // The overlap/exemption settings of a ConstrainedFDLayout can be changed between layouts.  Every sequence (to the depth bound) over
 // {avoid overlaps with exempt group {0,1}, avoid overlaps with no exemption, with exempt group {1,2}, makeFeasible+run} ending with
 // a layout; after EVERY layout the overlap clause is judged against the configuration in force at that moment.
+static const int C08_NOPS = 7, C08_LAYOUT = 3;
 static void c08_history_case(int n, int code, const vector<int> &ops) {
     vpsc::Rectangles rs; int c = code; string start; double G2[3] = {0, 15, 40};
     for (int i = 0; i < n; i++) { double x = G2[c % 3]; c /= 3; double y = G2[c % 3]; c /= 3; rs.push_back(new vpsc::Rectangle(x - 10, x + 10, y - 10, y + 10)); start += mcx::fmt("(%g,%g)", x, y); }
     vector<Edge> es; for (int i = 0; i + 1 < n; i++) es.push_back(Edge(i, i + 1));
-    static const char *ON[] = {"avoid(exempt{0,1})", "avoid()", "avoid(exempt{1,2})", "layout"};
+    static const char *ON[] = {"avoid(exempt{0,1})", "avoid()", "avoid(exempt{1,2})", "layout", "clusters{0,1}|{2}", "clusters{0}|{1,2}", "clusters(none)"};
     string desc = mcx::fmt("n=%d start %s history:", n, start.c_str()); for (int o : ops) desc += string(" ") + ON[o];
-    ctx.announce(desc); UnsatisfiableConstraintInfos ux, uy;
+    ctx.announce(desc); UnsatisfiableConstraintInfos ux, uy; vector<RootCluster *> roots;
     try {
         ConstrainedFDLayout alg(rs, es, 30); alg.setUnsatisfiableConstraintInfo(&ux, &uy);
-        bool avoid = false; int ex = -1;   // exempt pair (ex, ex+1) or none
+        bool avoid = false; int ex = -1; vector<vector<int>> groups;   // exempt pair (ex, ex+1) or none; member sets of the cluster hierarchy in force
         for (size_t k = 0; k < ops.size(); k++) {
             int o = ops[k];
             if (o == 0) { alg.setAvoidNodeOverlaps(true, {{0, 1}}); avoid = true; ex = 0; }
             else if (o == 1) { alg.setAvoidNodeOverlaps(true); avoid = true; ex = -1; }
             else if (o == 2) { alg.setAvoidNodeOverlaps(true, {{1, 2}}); avoid = true; ex = 1; }
+            else if (o == 4 || o == 5) { RootCluster *root = new RootCluster(); RectangularCluster *a = new RectangularCluster(), *b = new RectangularCluster();
+                if (o == 4) { a->addChildNode(0); a->addChildNode(1); b->addChildNode(2); groups = {{0, 1}, {2}}; } else { a->addChildNode(0); b->addChildNode(1); b->addChildNode(2); groups = {{0}, {1, 2}}; }
+                root->addChildCluster(a); root->addChildCluster(b); roots.push_back(root); alg.setClusterHierarchy(root); }
+            else if (o == 6) { alg.setClusterHierarchy(nullptr); groups.clear(); }
             else {
                 for (auto u : ux) delete u; for (auto u : uy) delete u; ux.clear(); uy.clear();
                 alg.makeFeasible(); alg.run(); ctx.count("transitions"); ctx.count("evaluations");
-                if (!avoid || !ux.empty() || !uy.empty()) continue;
+                if (!ux.empty() || !uy.empty()) continue;
                 string pos; for (int i = 0; i < n; i++) pos += mcx::fmt("[%g,%g]", rs[i]->getCentreX(), rs[i]->getCentreY());
-                for (int i = 0; i < n; i++) for (int j = i + 1; j < n; j++) { if (ex >= 0 && i == ex && j == ex + 1) continue;
+                if (avoid) for (int i = 0; i < n; i++) for (int j = i + 1; j < n; j++) { if (ex >= 0 && i == ex && j == ex + 1) continue;
                     double qx = min(rs[i]->getMaxX(), rs[j]->getMaxX()) - max(rs[i]->getMinX(), rs[j]->getMinX()), qy = min(rs[i]->getMaxY(), rs[j]->getMaxY()) - max(rs[i]->getMinY(), rs[j]->getMinY());
                     if (qx > 1e-3 && qy > 1e-3) ctx.violation("node_overlap", {"history"}, desc, mcx::fmt("after layout #%zu nodes %d,%d (not exempt now) overlap %gx%g: ", k, i, j, qx, qy) + pos); }
+                // cluster clauses for the hierarchy in force (the property states them for layouts with overlap avoidance)
+                if (avoid && !groups.empty()) {
+                    auto bbox = [&](const vector<int> &m, double &x0, double &x1, double &y0, double &y1) { x0 = y0 = 1e18; x1 = y1 = -1e18; for (int v : m) { x0 = min(x0, rs[v]->getMinX()); x1 = max(x1, rs[v]->getMaxX()); y0 = min(y0, rs[v]->getMinY()); y1 = max(y1, rs[v]->getMaxY()); } };
+                    double a0, a1, b0, b1, c0, c1, d0, d1; bbox(groups[0], a0, a1, b0, b1); bbox(groups[1], c0, c1, d0, d1);
+                    if (min(a1, c1) - max(a0, c0) > 1e-3 && min(b1, d1) - max(b0, d0) > 1e-3) ctx.violation("sibling_clusters_overlap", {"history"}, desc, mcx::fmt("after layout #%zu: ", k) + pos);
+                }
             }
         }
     } catch (vpsc::CriticalFailure &f) { ctx.library_abort(f.what(), desc); } catch (...) { ctx.library_abort("exception", desc); }
-    for (auto r : rs) delete r; for (auto u : ux) delete u; for (auto u : uy) delete u;
+    for (auto r : rs) delete r; for (auto u : ux) delete u; for (auto u : uy) delete u; for (auto r : roots) delete r;
 }
 static void c08_history_phase(int n, int depth, int codeStep) {
-    ctx.phase(mcx::fmt("C08 reconfiguration histories n=%d depth %d over {avoid(exempt{0,1}), avoid(), avoid(exempt{1,2}), layout}, last op a layout, every %d-th of 3^%d placements", n, depth, codeStep, 2 * n));
+    ctx.phase(mcx::fmt("C08 reconfiguration histories n=%d depth %d over {avoid(exempt{0,1}), avoid(), avoid(exempt{1,2}), layout, clusters{0,1}|{2}, clusters{0}|{1,2}, clusters(none)}, last op a layout, every %d-th of 3^%d placements", n, depth, codeStep, 2 * n));
     int tot = 1; for (int i = 0; i < 2 * n; i++) tot *= 3;
     vector<int> idx(depth, 0);
-    do { if (idx[depth - 1] != 3) continue; bool useful = false; for (int k = 0; k + 1 < depth; k++) if (idx[k] != 3) useful = true; if (!useful && depth > 1) continue;
+    do { if (idx[depth - 1] != C08_LAYOUT) continue; bool useful = false; for (int k = 0; k + 1 < depth; k++) if (idx[k] != C08_LAYOUT) useful = true; if (!useful && depth > 1) continue;
         for (int code = 0; code < tot; code += codeStep) { if (!ctx.next()) continue; ctx.count("states");
             { int c = code; double G2[3] = {0, 15, 40}; vector<double> xs, ys; for (int i = 0; i < n; i++) { xs.push_back(G2[c % 3]); c /= 3; ys.push_back(G2[c % 3]); c /= 3; } bool ov = false; for (int i = 0; i < n; i++) for (int j = i + 1; j < n; j++) if (fabs(xs[i] - xs[j]) < 20 && fabs(ys[i] - ys[j]) < 20) ov = true; if (ov) ctx.count("nontrivial"); }
             ctx.sample(mcx::fmt("history placement code %d", code), 1); c08_history_case(n, code, idx); ctx.done_case(); }
-    } while (mcx::odo_next(idx, 4) && !ctx.stopped());
+    } while (mcx::odo_next(idx, C08_NOPS) && !ctx.stopped());
 }
 
 int main(int argc, char **argv) {
@@ -223,7 +234,7 @@ int main(int argc, char **argv) {
     } else {
         c08_phase(3, 0, 0, false, false, 1); c08_phase(3, 2, 0, false, false, 1); c08_phase(3, 0, 0, true, false, 1); c08_phase(3, 0, 0, false, true, 1);
         c08_phase(4, 1, 0, false, false, 15); c08_phase(4, 0, 0, false, false, 15);
-        c08_history_phase(3, 2, 1); c08_history_phase(3, 3, 1); c08_history_phase(3, 4, 7);
+        c08_history_phase(3, 2, 1); c08_history_phase(3, 3, 3); c08_history_phase(3, 4, 29);
         if (T) { for (int h = 0; h < 5; h++) for (double pad : {0.0, 5.0}) c08_phase(4, h, pad, false, false, 5); c08_phase(4, 1, 5, true, true, 5); c08_phase(4, 4, 0, false, true, 5); c08_phase(3, 2, 5, true, true, 1); }
     }
     return ctx.finish();
